@@ -66,6 +66,9 @@ const (
 	opGetOrLoadClassBS
 	opGetOrLoadInterfaceBS
 	opLoadPkgBS
+	// registrations of a global variable's cell by a loaded file's top-level scope
+	opRegisterGlobal  // vm.RegisterGlobalContext(vars, ctx) with a context of the harness (cell known)
+	opLoadGlobalsFile // vm.LoadAndRun(file) of a generated file whose top level assigns the variable
 	opAllClasses    // AllClasses(): a reader of the whole table (not part of the histories)
 	opAllFuncs
 	nOpKinds
@@ -73,7 +76,7 @@ const (
 
 var opNames = [...]string{"AddClass", "AddInterface", "AddFunc", "GetClass", "GetInterface", "GetFunc", "SetConstant", "GetConstant",
 	"EnsureGlobalZVal", "GetOrLoadClass", "GetOrLoadInterface", "LoadPkg", "GetFunc\\", "GetConstant\\",
-	"GetOrLoadClass\\", "GetOrLoadInterface\\", "LoadPkg\\", "AllClasses", "AllFuncs"}
+	"GetOrLoadClass\\", "GetOrLoadInterface\\", "LoadPkg\\", "RegisterGlobalContext", "LoadAndRun(file with top-level variable)", "AllClasses", "AllFuncs"}
 
 // plainKind maps the "\\name" form of a lookup to the plain form (same sequential meaning).
 func plainKind(kind int) int {
@@ -140,7 +143,8 @@ func genPrograms(c caseSpec) [][]progOp {
 	kinds := []int{opAddClass, opAddClass, opAddInterface, opAddFunc, opAddFunc, opSetConstant, opSetConstant,
 		opGetClass, opGetClass, opGetClass, opGetInterface, opGetInterface, opGetFunc, opGetFunc, opGetFunc,
 		opGetConstant, opGetConstant, opEnsureGlobal, opEnsureGlobal, opGetOrLoadClass, opGetOrLoadInterface, opLoadPkg,
-		opGetFuncBS, opGetFuncBS, opGetConstantBS, opGetOrLoadClassBS, opGetOrLoadInterfaceBS, opLoadPkgBS}
+		opGetFuncBS, opGetFuncBS, opGetConstantBS, opGetOrLoadClassBS, opGetOrLoadInterfaceBS, opLoadPkgBS,
+		opRegisterGlobal, opLoadGlobalsFile}
 	for g := 0; g < c.G; g++ {
 		p := make([]progOp, 0, per)
 		for i := 0; i < per; i++ {
@@ -343,7 +347,7 @@ func workerMain(specPath, outPath string) {
 	var res workerResult
 	switch c.Mode {
 	case "hist", "stress":
-		res = runRegistry(c)
+		res = runRegistry(c, filepath.Dir(outPath))
 	case "calldepth":
 		res = runCallDepth(c)
 	case "autoload":
@@ -382,12 +386,23 @@ func installStackDumper(path string) {
 }
 
 // runRegistry executes the programs of one hist/stress case.
-func runRegistry(c caseSpec) workerResult {
+func runRegistry(c caseSpec, dir string) workerResult {
 	var res workerResult
 	vm := newVM(c.Std)
 	var hits atomic.Int64
 	installYield(c, &hits)
 	progs := genPrograms(c)
+	// one file per opLoadGlobalsFile (a file is loaded once per VM)
+	glDir := filepath.Join(dir, "gl")
+	_ = os.MkdirAll(glDir, 0o755)
+	glFile := func(g, i int) string { return filepath.Join(glDir, fmt.Sprintf("g%d_%d.php", g, i)) }
+	for g := range progs {
+		for i, op := range progs[g] {
+			if int(op.Kind) == opLoadGlobalsFile {
+				_ = os.WriteFile(glFile(g, i), []byte(fmt.Sprintf("<?php\n$%s = %d;\n", globalName(int(op.Name)), i+1)), 0o644)
+			}
+		}
+	}
 	stamp := c.Mode == "hist"
 
 	recs := make([][]rec, c.G)
@@ -473,6 +488,15 @@ func runRegistry(c caseSpec) workerResult {
 					}
 				case opEnsureGlobal:
 					cell = lk.EnsureGlobalZVal(globalName(n))
+				case opRegisterGlobal:
+					vars := []data.Variable{data.NewVariable(globalName(n), 0, nil)}
+					ctx := vm.CreateContext(vars)
+					cell = ctx.GetIndexZVal(0)
+					vm.RegisterGlobalContext(vars, ctx)
+				case opLoadGlobalsFile:
+					if _, acl := vm.LoadAndRun(glFile(g, i)); acl != nil {
+						gnotes[g] = append(gnotes[g], "registry/global/file-load-failed :: LoadAndRun of a one-line file assigning a top-level variable failed: "+acl.AsString())
+					}
 				case opGetOrLoadClass:
 					if v, acl := lk.GetOrLoadClass(typeName(n)); acl == nil && v != nil {
 						r.Out = tokOf(v)
@@ -533,20 +557,24 @@ func runRegistry(c caseSpec) workerResult {
 	ids := map[*data.ZVal]int{}
 	for g := range recs {
 		for i := range recs[g] {
-			if recs[g][i].Kind != opEnsureGlobal {
+			k := recs[g][i].Kind
+			if k != opEnsureGlobal && k != opRegisterGlobal {
 				continue
 			}
 			cell := cells[g][i]
-			if cell == nil {
-				recs[g][i].Out = 0
-				continue
+			id := 0
+			if cell != nil {
+				var ok bool
+				if id, ok = ids[cell]; !ok {
+					id = len(ids) + 1
+					ids[cell] = id
+				}
 			}
-			id, ok := ids[cell]
-			if !ok {
-				id = len(ids) + 1
-				ids[cell] = id
+			if k == opEnsureGlobal {
+				recs[g][i].Out = id
+			} else {
+				recs[g][i].In = id // the cell this registration offers
 			}
-			recs[g][i].Out = id
 		}
 	}
 	// final state, read single-threaded after the join
